@@ -8,6 +8,7 @@ import (
 	"os"
 	"os/exec"
 	"path/filepath"
+	"runtime"
 	"strconv"
 	"strings"
 	"syscall"
@@ -16,10 +17,30 @@ import (
 
 	"pgregory.net/rapid"
 
+	pfs "github.com/thought-machine/please/src/fs"
+
 	"verifharness/lib"
 )
 
-func TestMain(m *testing.M) { lib.Main(m) }
+func init() { runtime.LockOSThread() }
+
+func TestMain(m *testing.M) {
+	if os.Getenv("VERIF_C32_HELPER") != "" {
+		// helper mode (run under strace): one fs.WriteFile over the destination; all file syscalls
+		// are issued from the locked initial thread (GOMAXPROCS=1 is set by the parent)
+		dst, src := os.Getenv("VERIF_C32_DST"), os.Getenv("VERIF_C32_SRC")
+		f, err := os.Open(src)
+		if err != nil {
+			os.Exit(3)
+		}
+		if err := pfs.WriteFile(f, dst, 0o644); err != nil {
+			fmt.Fprintln(os.Stderr, err)
+			os.Exit(4)
+		}
+		os.Exit(0)
+	}
+	lib.Main(m)
+}
 
 var spec = lib.Spec{
 	ID: "C32",
@@ -27,7 +48,7 @@ var spec = lib.Spec{
 		"either SIGKILL of plz and every process it started 0-150 ms after the n-th command of the build has started (n drawn 0-6, observed through the action log), or under `strace -f -e inject=<syscall>:signal=KILL:when=k` for a drawn metadata syscall " +
 		"(renameat, renameat2, setxattr, lsetxattr, fsetxattr, unlinkat, linkat, symlinkat, mkdirat, openat, write, chmod/fchmodat) and a drawn k (1-40, mostly small; counters are per thread, so k lands on varying operations: exploration, not enumeration). " +
 		"Optionally a second kill follows. Then a normal `plz build` runs. Oracle: it exits 0 and every requested target's outputs equal the Go model of B (a mismatch is confirmed against a real clean build before it is reported). " +
-		"Non-trivial = the kill hit a running plz (exit by signal) after at least one action of the B build had started, or the strace-injected kill fired; distinct = JSON of the case",
+		"Sub-check (b), exhaustive per case: fs.WriteFile over an existing/absent destination in a single-threaded helper is killed before EVERY mutating syscall it issues (grid of old/new sizes 0..300000 bytes); the destination must hold exactly the old or exactly the new bytes. Non-trivial = the kill hit a running plz (exit by signal) after at least one action of the B build had started, or the strace-injected kill fired; distinct = JSON of the case",
 	Assumptions: []string{
 		"crash = SIGKILL of the plz process and of every process it started (no power-loss / page-cache loss semantics)",
 		"kill points of the multi-threaded plz process are sampled, not enumerated",
@@ -43,10 +64,88 @@ type Kill struct {
 }
 
 type Case struct {
-	A, B  *lib.Repo
-	Edits []string
-	Req   []string
-	Kills []Kill
+	A, B  *lib.Repo `json:",omitempty"`
+	Edits []string  `json:",omitempty"`
+	Req   []string  `json:",omitempty"`
+	Kills []Kill    `json:",omitempty"`
+	WF    *WFCase   `json:",omitempty"` // sub-check (b): fs.WriteFile killed at every mutating syscall
+}
+
+// WFCase: the destination holds Old (absent if HasOld is false) and is overwritten with New bytes.
+type WFCase struct {
+	HasOld  bool
+	OldSize int
+	NewSize int
+}
+
+func pattern(n int, seed byte) []byte {
+	b := make([]byte, n)
+	for i := range b {
+		b[i] = seed + byte(i%251)
+	}
+	return b
+}
+
+func runWF(c WFCase, o *lib.Obs) error {
+	if err := lib.StraceAvailable(); err != nil {
+		return &lib.Inconclusive{Msg: "strace unavailable: " + err.Error()}
+	}
+	dir, cleanup := lib.Scratch("c32wf-")
+	defer cleanup()
+	oldB, newB := pattern(c.OldSize, 1), pattern(c.NewSize, 101)
+	src := filepath.Join(dir, "src.bin")
+	os.WriteFile(src, newB, 0o644)
+	self, _ := os.Executable()
+	points, fired := 0, 0
+	runOnce := func(inj *lib.Inject) (*lib.StraceResult, string, error) {
+		d := filepath.Join(dir, "out")
+		os.RemoveAll(d)
+		os.MkdirAll(d, 0o755)
+		dst := filepath.Join(d, "dest.bin")
+		if c.HasOld {
+			os.WriteFile(dst, oldB, 0o644)
+		}
+		r, err := lib.Strace(lib.StraceOpts{Inject: inj, Env: []string{"VERIF_C32_HELPER=1", "VERIF_C32_DST=" + dst, "VERIF_C32_SRC=" + src, "GOMAXPROCS=1", "PATH=/usr/bin:/bin"}}, self)
+		return r, dst, err
+	}
+	base, _, err := runOnce(nil)
+	if err != nil || base.ExitCode != 0 {
+		return &lib.Inconclusive{Msg: fmt.Sprintf("baseline traced run failed: %v", err)}
+	}
+	counts := base.Count(base.MainTID)
+	for _, name := range lib.MutatingSyscalls {
+		for k := 1; k <= counts[name]; k++ {
+			r, dst, err := runOnce(&lib.Inject{Syscall: name, When: k, Signal: "KILL"})
+			if err != nil {
+				return &lib.Inconclusive{Msg: "strace: " + err.Error()}
+			}
+			points++
+			if !r.Fired && r.Killed == "" {
+				continue
+			}
+			fired++
+			got, rerr := os.ReadFile(dst)
+			where := fmt.Sprintf("old=%v(%d bytes) new=%d bytes, killed before %s #%d (%s)", c.HasOld, c.OldSize, c.NewSize, name, k, r.LastCall)
+			switch {
+			case rerr != nil && c.HasOld:
+				return lib.Failf("destination-lost", "%s: destination no longer exists", where)
+			case rerr != nil:
+				// no old file: absent is fine
+			case bytes.Equal(got, newB):
+			case c.HasOld && bytes.Equal(got, oldB):
+			default:
+				return lib.Failf("torn-write", "%s: destination holds %d bytes that are neither the old nor the new content", where, len(got))
+			}
+		}
+	}
+	lib.Rec(spec).AddExtra("writefile_crash_points", int64(fired))
+	o.Label("writefile_enumeration")
+	o.NonTrivial(fired >= 3 && c.HasOld)
+	o.Sample(map[string]any{"writefile": c, "crash_points": fired, "syscalls": counts})
+	if fired == 0 {
+		return &lib.Inconclusive{Msg: "no injection fired"}
+	}
+	return nil
 }
 
 var killSyscalls = []string{"renameat", "renameat2", "setxattr", "lsetxattr", "fsetxattr", "unlinkat", "linkat", "symlinkat", "mkdirat", "openat", "write", "fchmodat", "rename"}
@@ -184,6 +283,9 @@ func crashBuild(e *lib.E2E, k Kill, req []string) (killed bool, started int, err
 }
 
 func run(c Case, o *lib.Obs) error {
+	if c.WF != nil {
+		return runWF(*c.WF, o)
+	}
 	e := lib.NewE2E("c32-")
 	defer e.Close()
 	defer killAll(e.Dir)
@@ -250,5 +352,31 @@ func run(c Case, o *lib.Obs) error {
 }
 
 func TestC32(t *testing.T) {
+	if lib.ReplayMode(t, spec, run) {
+		return
+	}
+	// (b) fs.WriteFile killed at every mutating syscall, over a small grid of sizes (exhaustive per case)
+	shard, shards := lib.Shard()
+	sizes := []int{0, 1, 4096, 70000}
+	if lib.Thorough() {
+		sizes = []int{0, 1, 100, 4096, 32768, 32769, 70000, 300000}
+	}
+	i := 0
+	for _, hasOld := range []bool{true, false} {
+		for _, osz := range []int{0, 10, 50000} {
+			if !hasOld && osz != 0 {
+				continue
+			}
+			for _, nsz := range sizes {
+				i++
+				if i%shards != shard {
+					continue
+				}
+				if !lib.Each(t, spec, Case{WF: &WFCase{HasOld: hasOld, OldSize: osz, NewSize: nsz}}, run) {
+					return
+				}
+			}
+		}
+	}
 	lib.Check(t, spec, lib.Scale(24, 800), gen, run)
 }
